@@ -173,18 +173,18 @@ Hypothesis U_inj : forall a b, U a -> U b -> hash_field a = hash_field b -> a = 
 Variable g : block.
 Notation Inv := (Inv apply spent U g).
 
-Lemma rollforward_ok L : forall n, valid_chain apply (sdb_root n) L ->
+Lemma rollforward_ok L : forall n, valid_chain apply (sdb_root n) L -> pmem n = sdb_root n ->
   exists n2, rollforward apply n L = (n2, true).
 Proof.
-  induction L as [|b L IH]; intros n H; simpl.
+  induction L as [|b L IH]; intros n H Hp; simpl.
   - eauto.
   - destruct H as (H1 & H2).
     assert (Eok : exec_ok apply (sdb_root n) b = true) by (unfold exec_ok; rewrite H1; apply N.eqb_refl).
-    unfold execute_block at 1. rewrite Eok.
-    match goal with |- context [rollforward apply ?x L] => destruct (IH x) as (n2 & E) end.
-    + destruct (emit_ne_fields (set_sdb (emit n (state_unit (root b))) (root b)) (receipts_unit b)) as (_ & F2 & _).
-      simpl. rewrite F2. simpl. exact H2.
-    + exists n2. exact E.
+    destruct (execute_block apply n b) as [n1|] eqn:Ex.
+    2:{ unfold execute_block in Ex. rewrite Eok, Hp, N.eqb_refl in Ex. discriminate. }
+    destruct (execute_block_frame _ _ _ _ Ex) as (_ & _ & Fs & _).
+    destruct (execute_block_pmem' _ _ _ _ Ex) as (_ & Fp).
+    apply IH; auto. rewrite Fs. exact H2.
 Qed.
 
 Lemma inv_stored_U n id x : Inv n -> get_block (dur n) id = Some x -> U x /\ hash_field x = id.
@@ -239,7 +239,7 @@ Proof.
     unfold reorg. rewrite G.
     assert (El : no f <? lib n = false) by (apply N.ltb_ge; lia). rewrite El.
     rewrite rev_involutive.
-    destruct (rollforward_ok L (set_sdb n (root f)) Hv) as (n2 & RF). rewrite RF.
+    destruct (rollforward_ok L (set_state n (root f)) Hv eq_refl) as (n2 & RF). rewrite RF.
     pose proof (reorg_inv apply spent apply_fresh apply_spent U U_inj g n top) as RI.
     unfold reorg in RI. rewrite G, El, rev_involutive, RF in RI.
     destruct (RI _ _ I Ut Ht Htop eq_refl) as (I' & Hb' & Hl').
